@@ -286,3 +286,26 @@ class ModelBehaviour(RandomBehaviour):
         if ent.get("dt"):
             data["time"] = ctx.steptime[p.sid] + ent["dt"]
         return Reply(data)
+
+
+class FaultPlanBehaviour(RandomBehaviour):
+    """Compliant random behaviour with ONE simulator failure (C14 families).
+    plan = {"sid", "req": "step"|"get_data"|"setup_done", "k", "kind"}, kind in
+      eof / reset     : the connection is closed / reset while the request is outstanding (remote)
+      eof_idle        : the simulator answers the request and then dies (remote, no request outstanding)
+      remote_exception: the remote handler raises; the failure is reported over the connection
+      raise           : an in-process simulator raises"""
+
+    def __init__(self, seed, plan, **kw):
+        super().__init__(seed, **kw)
+        self.plan = plan
+
+    def reply(self, ctx, p):
+        rep = super().reply(ctx, p)
+        pl = self.plan
+        if p.sid == pl["sid"] and p.kind == pl["req"] and p.k == pl["k"]:
+            if pl["kind"] in ("eof", "reset", "eof_idle"):
+                rep.fault = pl["kind"]
+            else:
+                rep.exc = RuntimeError(f"injected failure in {p.sid}.{p.kind}")
+        return rep
